@@ -244,9 +244,14 @@ def cfg_line_for(flags, asfound=()):
 
 # ------------------------------------------------------------------------------------------ shrink
 
+SEQ_START = {"init", "new", "reset", "chain", "open", "fresh"}
+
 def shrink_mismatch(binpath, driver, work, ops_lines, cfg, first_bad, budget=60, xargs=None):
     """delta-debug an op prefix that still shows a mismatch (ops may be stateful)."""
     lines = [l for l in ops_lines[:first_bad] if l.strip() and not l.startswith("cfg")]
+    # harnesses run many independent sequences in one ops file, each opened by an op that rebuilds
+    # the object under test: try the last sequence alone first
+    starts = [i for i, l in enumerate(lines) if l.split(" ")[0] in SEQ_START]
     def bad(cand):
         p = os.path.join(work, "shrink.ops")
         with open(p, "w") as f:
@@ -256,13 +261,16 @@ def shrink_mismatch(binpath, driver, work, ops_lines, cfg, first_bad, budget=60,
             return True  # crashes the harness: keep
         rc2, model = run_driver(driver, ops)
         return bool(diff_lines(read_lines(ops), read_lines(impl), model, limit=1))
-    if not bad(lines):
-        return lines, False
+    if starts and starts[-1] > 0 and bad(lines[starts[-1]:]):
+        lines = lines[starts[-1]:]
+    elif not bad(lines):
+        return (lines[starts[-1]:] if starts else lines), False
     n, steps = 2, 0
     while len(lines) >= 2 and steps < budget:
         chunk = max(1, len(lines) // n)
         reduced = False
-        for i in range(0, len(lines), chunk):
+        keep = 1 if lines[0].split(" ")[0] in SEQ_START else 0   # never drop the op that builds the object
+        for i in range(keep, len(lines), chunk):
             cand = lines[:i] + lines[i + chunk:]
             steps += 1
             if cand and bad(cand):
@@ -283,6 +291,7 @@ class Report:
         self.pid = pid
         self.violations = []     # (replay_path, suffix)
         self.known = []
+        self.flags_reported = set()
     def replay_path(self, obj):
         os.makedirs(REPLAYS, exist_ok=True)
         s = json.dumps(obj, sort_keys=True, indent=1)
@@ -329,6 +338,36 @@ def run_engine(spec, eng, tier, seed, work, rep, known, cov):
                            "what": "the reference co-process does not build", "output": orr[-3000:]}, no_input=True)
             return
         HARNESS_ENV["VERIF_REF"] = refpath
+    # ---- corpus first: the witness of every as-found variant (a past failure, minimised) is run on the
+    # implementation on every run, whatever the random streams reach. Answers equal to the recorded as-found
+    # answers = the defect is (back) in the code.
+    corpus = {}
+    for fl in flags:
+        wit, want = fl.get("witness", []), fl.get("witness_impl_asFound", [])
+        if not wit or not want:
+            continue
+        wp = os.path.join(work, f"{name}.corpus.{fl['name']}.in")
+        with open(wp, "w") as f:
+            f.write(cfg_line_for(flags, (fl["name"],)) + "\n" + "\n".join(wit) + "\n")
+        rcw, ow, wops, wimpl, wmeta = run_harness(binpath, work, f"{name}.corpus.{fl['name']}", 0, "quick", replay=wp,
+                                                  timeout=300, extra_args=xargs)
+        got = [l.rstrip() for l in read_lines(wimpl)[1:len(wit) + 1]] if rcw == 0 else None
+        corpus[fl["name"]] = "harness-failed" if got is None else ("asFound" if got == want else "repaired")
+        if got == want:
+            k = known_match(known, spec["id"], fl["class"])
+            if k:
+                rep.known_finding(f"KNOWN-FINDING: property={spec['id']} {k['what']}")
+                cov["known_findings_seen"].append(fl["class"])
+            else:
+                rep.flags_reported.add((name, fl["name"]))
+                rep.violation({"kind": "code-matches-as-found-variant", "engine": name, "flag": fl["name"],
+                               "class": fl["class"], "what": fl["what"],
+                               "counter_theorems": fl.get("theorems", []),
+                               "ops": wit, "implementation_answers": got,
+                               "witness_confirmed_on_implementation": True, "found_by": "witness corpus",
+                               "replay_cmd": f"./check {spec['id']} --replay <this file>"})
+    if corpus:
+        cov["extra"].setdefault(name, {})["witness_corpus"] = corpus
     shards = eng.get("shards", {}).get(tier, 1)
     to = eng.get("timeout", {}).get(tier, 1500)
     def one(sh_i):
@@ -396,8 +435,9 @@ def run_engine(spec, eng, tier, seed, work, rep, known, cov):
         if matched:
             cov["variant_matched"][name] = "asFound:" + ",".join(matched)
             for fl in flags:
-                if fl["name"] not in matched:
+                if fl["name"] not in matched or (name, fl["name"]) in rep.flags_reported:
                     continue
+                rep.flags_reported.add((name, fl["name"]))
                 # replay the proven witness on the implementation
                 wit = fl.get("witness", [])
                 wp = os.path.join(work, f"{name}.witness.ops")
@@ -486,6 +526,44 @@ def main():
         if not ok:
             rep.violation({"kind": "source-tie-broken", "tie": tie,
                            "what": "%s no longer contains `%s`: %s" % (tie["file"], tie["text"], tie.get("why", ""))}, no_input=True)
+
+    # ---- 1c. site inventories: regenerated from the source on every run and compared with the committed
+    # expectation (which statement is which site of the model, or why it is none)
+    for inv in spec.get("site_inventory", []):
+        found, problems = [], []
+        for f in inv["files"]:
+            fn = None
+            try:
+                src = open(os.path.join(REPO, f)).read().split("\n")
+            except OSError:
+                problems.append("cannot read " + f); continue
+            for l in src:
+                m = re.match(r"func (?:\([^)]*\) )?(\w+)", l)
+                if m:
+                    fn = m.group(1)
+                if re.search(inv["pattern"], l) and not l.strip().startswith("//"):
+                    msg = re.search(r'"([^"]*)"', l)
+                    found.append((f, fn, (msg.group(1) if msg else "")[:60]))
+        want = [(e["file"], e["func"], e["text"]) for e in inv["expected"]]
+        for x in sorted(set(found)):
+            if found.count(x) > want.count(x):
+                problems.append("new site in %s, func %s: %r" % x)
+        for x in sorted(set(want)):
+            if want.count(x) > found.count(x):
+                problems.append("site gone from %s, func %s: %r" % x)
+        try:
+            mtxt = open(os.path.join(VERIF, inv["model_file"])).read()
+        except OSError:
+            mtxt = ""
+        for e in inv["expected"]:
+            if e.get("model") and (inv["model_pattern"] % e["model"]) not in mtxt:
+                problems.append("the model has no site %r (for %s %s)" % (e["model"], e["file"], e["func"]))
+            if not e.get("model") and not e.get("why"):
+                problems.append("no disposition for %s %s %r" % (e["file"], e["func"], e["text"]))
+        cov["extra"].setdefault("source_ties", []).append({"tie": inv["name"], "ok": not problems, "sites": len(found),
+                                                           "modelled": sum(1 for e in inv["expected"] if e.get("model"))})
+        if problems:
+            rep.violation({"kind": "source-tie-broken", "tie": inv["name"], "what": inv["what"], "problems": problems}, no_input=True)
 
     # ---- 2. proofs
     module = spec["props_module"]
